@@ -49,6 +49,18 @@ class _D(Domain):
             if len(n.args) == 2 and isinstance(n.args[0], ast.Call) \
                     and norm(n.args[0].func) == norm(n.args[1]):
                 return True         # isinstance(C(), C)
+            # what __setitem__ files (C11.exclusive): a value goes to `.maps`
+            # exactly when it is a ResourceMap, to a layer of `.handles`
+            # otherwise - so the class of a value READ from one of the two
+            # containers is known as far as ResourceMap is concerned
+            if len(n.args) == 2 and norm(n.args[1]) == 'ResourceMap' \
+                    and isinstance(n.args[0], ast.Subscript):
+                cont = norm(n.args[0].value)
+                if cont.endswith('.maps') and not cont.endswith(
+                        '.handles.maps'):
+                    return True
+                if cont.endswith('.handles'):
+                    return False
             return None
         return fold_truth(n)
 
